@@ -210,7 +210,7 @@ pub fn facts_sexp(c: &Case) -> String {
     let want_json = c.defs.contains('{');
     let want_f64 = c.defs.to_lowercase().contains("real");
     let mut texts: BTreeSet<String> = BTreeSet::new();   // everything a column value can be made of
-    let ship_docs = crate::util::ship_facts(&c.defs);
+    let ship_docs = crate::util::ship_facts(crate::util::SITE_E2E_DOC);
     let mut lines = String::from("(lines");
     for l in &all_lines {
         texts.insert(l.clone());
@@ -250,7 +250,7 @@ pub fn facts_sexp(c: &Case) -> String {
     let mut f64s = String::from("(f64");
     let mut reals: BTreeSet<u64> = BTreeSet::new();
     reals.insert(0x7ff8000000000000);
-    let ship = crate::util::ship_facts(&format!("{}\u{1}{}", c.defs, c.query));
+    let ship = crate::util::ship_facts(crate::util::SITE_E2E_F64);
     if want_f64 {
         for t in &texts {
             match f64::from_str(t) {
